@@ -438,7 +438,7 @@ def run(chk):
         chk.violation("harness-build", "the correspondence harness does not build against the repository", {"log": out[-4000:]}, found_input=False)
         chk.coverage.update({"evaluations": 0})
         return
-    n = 150 if chk.tier == "quick" else 1500
+    n = 300 if chk.tier == "quick" else 1500
     rc, out, err = vlib.harness_run(BIN, ["gen", "--seed", chk.seed, "--n", n, "--tier", chk.tier], timeout=3000)
     recs = [kv(l) for l in out.split("\n") if l.strip()]
     cases = [load_sortv(d) for d in recs if d["kind"] == "sortv"]
@@ -557,6 +557,20 @@ def run(chk):
                        "failures_total": len(problems), "broken": chk.broken})
     elif e2e_problems:
         key, text, h, d = e2e_problems[0]
+        # shrink: later calls cannot influence an earlier one - keep the history up to the failing call
+        try:
+            ci = int(d["call"])
+            toks = h.split()
+            calls = [t for t in toks if t.startswith("calls=")][0][6:].split("|")
+            if 0 <= ci < len(calls) - 1:
+                h2 = " ".join(t if not t.startswith("calls=") else "calls=" + "|".join(calls[:ci + 1]) for t in toks)
+                out_lines = [kv(l) for l in run_replay_lines([h2]) if l.startswith("e2e ")]
+                bad = [x for x in out_lines if int(x["shadow_bad"]) == 0 and e2e_oracle(x) is not None]
+                if bad:
+                    h, d = h2, bad[0]
+                    key, text = e2e_oracle(d)
+        except (ValueError, IndexError, KeyError):
+            pass
         chk.violation("C02:predict:" + key, text,
                       {"input": h, "call": d["raw"], "replay_cmd": "write the `input` line to a file and run /verif/.cache/target/release/voting replay --file <file>",
                        "failures_total": len(e2e_problems), "broken": chk.broken})
